@@ -24,8 +24,10 @@ theorem processFrame_conn_other (q : Quirks) (s : Server) (cid j : Nat) (r : Req
   split
   · rfl
   · split
-    all_goals (repeat' split)
-    all_goals first | rfl | exact exec_conn_other q s cid j r h | simp [setConn, h]
+    · rfl
+    · split
+      all_goals (repeat' split)
+      all_goals first | rfl | exact exec_conn_other q s cid j r h | simp [setConn, h]
 
 theorem exec_conn_self (q : Quirks) (s : Server) (cid : Nat) (r : Req) :
     (exec q s cid r).1.conns cid =
@@ -45,15 +47,16 @@ theorem processFrame_conn_self (q : Quirks) (s : Server) (cid : Nat) (r : Req) :
   split
   · rfl
   · split
-    · split <;> simp [setConn]
-    · exact exec_conn_self q s cid r
-    · split <;> simp [setConn]
-    · repeat' split
-      all_goals rfl
     · rfl
     · split
-      · simp [setConn]
-      · simp [setConn, runOne_db]
+      · split <;> simp [setConn]
+      · exact exec_conn_self q s cid r
+      · split <;> simp [setConn]
+      · repeat' split
+        all_goals rfl
+      · split
+        · simp [setConn]
+        · simp [setConn, runOne_db]
 
 theorem stepEvent_conn_other (q : Quirks) (s : Server) (e : Event) (j : Nat) (h : e.conn? ≠ some j) :
     (stepEvent q s e).1.conns j = s.conns j := by
@@ -108,31 +111,32 @@ theorem connStep_ok (q : Quirks) (c : Conn) (r : Req) (h : ConnOk q c) : ConnOk 
   split
   · exact h
   · split
-    · split
-      · exact h
-      · exact ⟨rfl, fun hh => by simp at hh, by simp⟩
-    · repeat' split
-      all_goals first | exact h | exact ConnOk_cleared q c | exact ⟨rfl, fun _ => rfl, by simp [cleared]⟩
-    · split
-      · exact h
-      · exact ConnOk_cleared q c
     · exact h
-    · exact h
-    · rename_i hne hk
-      split
-      · rename_i hc
-        simp only [Bool.and_eq_true, Bool.not_eq_true'] at hc
-        refine ⟨h.notAborted, fun hh => (by have h2 : c.inTx = false := hh; rw [hc.1] at h2; cases h2), ?_⟩
-        intro x hx
-        simp only [List.mem_append, List.mem_singleton] at hx
-        rcases hx with hx | hx
-        · exact h.queueOk x hx
-        · subst hx
-          rw [queueable_iff]
-          refine ⟨?_, hk, ?_⟩
-          · intro he; simp_all
-          · intro hm; have := List.contains_iff_mem.2 hm; simp_all
-      · exact ⟨h.notAborted, h.idleEmpty, h.queueOk⟩
+    · split
+      · split
+        · exact h
+        · exact ⟨rfl, fun hh => by simp at hh, by simp⟩
+      · repeat' split
+        all_goals first | exact h | exact ConnOk_cleared q c | exact ⟨rfl, fun _ => rfl, by simp [cleared]⟩
+      · split
+        · exact h
+        · exact ConnOk_cleared q c
+      · exact h
+      · rename_i hne _ hk
+        split
+        · rename_i hc
+          simp only [Bool.and_eq_true, Bool.not_eq_true'] at hc
+          refine ⟨h.notAborted, fun hh => (by have h2 : c.inTx = false := hh; rw [hc.1] at h2; cases h2), ?_⟩
+          intro x hx
+          simp only [List.mem_append, List.mem_singleton] at hx
+          rcases hx with hx | hx
+          · exact h.queueOk x hx
+          · subst hx
+            rw [queueable_iff]
+            refine ⟨?_, hk, ?_⟩
+            · intro he; simp_all
+            · intro hm; have := List.contains_iff_mem.2 hm; simp_all
+        · exact ⟨h.notAborted, h.idleEmpty, h.queueOk⟩
 
 theorem connEvent_ok (q : Quirks) (c : Conn) (e : Event) (h : ConnOk q c) : ConnOk q (connEvent q c e) := by
   cases e with
@@ -195,13 +199,14 @@ theorem processFrame_store_inTx (q : Quirks) (s : Server) (cid : Nat) (r : Req)
   split
   · exact ⟨rfl, rfl⟩
   · split
-    · first | exact ⟨rfl, rfl⟩ | (split <;> exact ⟨rfl, rfl⟩)
-    · rename_i hk; exact absurd ((kindOf_exec _).1 hk) hne
-    · first | exact ⟨rfl, rfl⟩ | (split <;> exact ⟨rfl, rfl⟩)
-    · first | exact ⟨rfl, rfl⟩ | (repeat' split
-                                  all_goals exact ⟨rfl, rfl⟩)
     · exact ⟨rfl, rfl⟩
-    · simp [hin, himm]
+    · split
+      · first | exact ⟨rfl, rfl⟩ | (split <;> exact ⟨rfl, rfl⟩)
+      · rename_i hk; exact absurd ((kindOf_exec _).1 hk) hne
+      · first | exact ⟨rfl, rfl⟩ | (split <;> exact ⟨rfl, rfl⟩)
+      · first | exact ⟨rfl, rfl⟩ | (repeat' split
+                                    all_goals exact ⟨rfl, rfl⟩)
+      · simp [hin, himm]
 
 /-! ### erasing a connection whose frames never reach the dataset
 
@@ -272,7 +277,7 @@ theorem stepEvent_silent_agree (q : Quirks) (a b : Server) (cid : Nat) (e : Even
   exact h3 j hj
 
 /-- a frame that cannot reach the dataset given the connection's state `c`: an empty frame, MULTI,
-    DISCARD, WATCH, UNWATCH, an EXEC that is refused / fails its WATCH check, or a queueable command
+    DISCARD, WATCH, an EXEC that is refused / fails its WATCH check, or a queueable command
     while in a transaction -/
 def quietFrame (q : Quirks) (c : Conn) (r : Req) : Bool :=
   r.cmd.isEmpty ||
@@ -280,7 +285,6 @@ def quietFrame (q : Quirks) (c : Conn) (r : Req) : Bool :=
    | .multi => true
    | .discard => true
    | .watch => true
-   | .unwatch => true
    | .exec => !c.inTx || !r.watchOk || c.aborted
    | .other => c.inTx && !q.immediate.contains (nameOf r.cmd))
 
@@ -293,19 +297,20 @@ theorem quietFrame_silent (q : Quirks) (s : Server) (cid : Nat) (r : Req) (h : q
   · exact ⟨rfl, rfl⟩
   · rename_i hne
     simp only [hne, Bool.false_or] at h
-    split <;> rename_i hk <;> simp only [hk] at h
-    · first | exact ⟨rfl, rfl⟩ | (split <;> exact ⟨rfl, rfl⟩)
-    · simp only [Bool.or_eq_true, Bool.not_eq_true'] at h
-      repeat' split
-      all_goals first | exact ⟨rfl, rfl⟩ | simp_all
-    · first | exact ⟨rfl, rfl⟩ | (split <;> exact ⟨rfl, rfl⟩)
-    · first | exact ⟨rfl, rfl⟩ | (repeat' split
-                                  all_goals exact ⟨rfl, rfl⟩)
+    split
     · exact ⟨rfl, rfl⟩
-    · simp only [Bool.and_eq_true, Bool.not_eq_true'] at h
-      have hm : nameOf r.cmd ∉ q.immediate := by
-        intro hm; have := List.contains_iff_mem.2 hm; simp_all
-      simp [h.1, hm]
+    · split <;> rename_i hk <;> simp only [hk] at h
+      · first | exact ⟨rfl, rfl⟩ | (split <;> exact ⟨rfl, rfl⟩)
+      · simp only [Bool.or_eq_true, Bool.not_eq_true'] at h
+        repeat' split
+        all_goals first | exact ⟨rfl, rfl⟩ | simp_all
+      · first | exact ⟨rfl, rfl⟩ | (split <;> exact ⟨rfl, rfl⟩)
+      · first | exact ⟨rfl, rfl⟩ | (repeat' split
+                                    all_goals exact ⟨rfl, rfl⟩)
+      · simp only [Bool.and_eq_true, Bool.not_eq_true'] at h
+        have hm : nameOf r.cmd ∉ q.immediate := by
+          intro hm; have := List.contains_iff_mem.2 hm; simp_all
+        simp [h.1, hm]
 
 /-- the connection's own events, followed from its state `c`, never reach the dataset -/
 def QuietRun (q : Quirks) : Conn → List Event → Prop
@@ -378,7 +383,7 @@ theorem quietRun_queueing (q : Quirks) (cid now : Nat) (cmds : List Cmd) (c : Co
     simp only [framesOf, List.map_cons, List.cons_append, QuietRun]
     refine ⟨by simp [quietFrame, hne, hx.2.1, hin, himm, hx.2.2], ?_⟩
     apply ih
-    · simp [connEvent, connStep, hne, hx.2.1, hin, himm, hx.2.2]
+    · simp [connEvent, connStep, hne, hx.2.1, hin, himm, hx.2.2, badArity_other q x hx.2.1]
     · intro y hy; exact hc y (by simp [hy])
 
 /-- queueable commands sent while in a transaction only extend the queue, in order -/
@@ -391,7 +396,7 @@ theorem fold_queueing (q : Quirks) (cid now : Nat) (cmds : List Cmd) (c : Conn)
     have hx := (queueable_iff q x).1 (hc x (by simp))
     have hne : x.isEmpty = false := by cases x <;> simp_all
     have hstep : connEvent q c (.frame cid { cmd := x, now := now }) = { c with queue := c.queue ++ [x] } := by
-      simp [connEvent, connStep, hne, hx.2.1, hin, hx.2.2]
+      simp [connEvent, connStep, hne, hx.2.1, hin, hx.2.2, badArity_other q x hx.2.1]
     simp only [framesOf, List.map_cons, List.foldl_cons]
     rw [hstep]
     have := ih { c with queue := c.queue ++ [x] } hin (fun y hy => hc y (by simp [hy]))
